@@ -39,8 +39,9 @@ VARIABLES l,      \* next record
           lst,    \* [node -> last logged scalar state]
           nsteps, \* core/task records compared
           viol,   \* property monitors that failed: <<name, line of the run boundary>>
-          have    \* [node -> keys written to the node's store by the mempool Processor (batch digests)]
-tvars == <<vars, l, div, ndiv, lst, nsteps, viol, have>>
+          have,   \* [node -> keys written to the node's store by the mempool Processor (batch digests)]
+          seen    \* [node -> verified votes and timeouts the node has been given (or cast itself)]
+tvars == <<vars, l, div, ndiv, lst, nsteps, viol, have, seen>>
 
 InitLst == [r |-> 1, lv |-> 0, lc |-> 0, hq |-> Genesis]
 
@@ -49,6 +50,7 @@ TInit ==
   /\ l = 1 /\ div = <<>> /\ ndiv = 0 /\ nsteps = 0 /\ viol = {}
   /\ lst = [n \in Honest |-> InitLst]
   /\ have = [n \in Honest |-> {}]
+  /\ seen = [n \in Honest |-> [votes |-> {}, tos |-> {}]]
 
 -----------------------------------------------------------------------------
 \* normal form of effects, shared by model and log
@@ -148,6 +150,26 @@ AvailViol(n, e) ==
   (IF \A i \in 1..Len(vs) : (vs[i].blk \in DOMAIN BInfo /\ BInfo[vs[i].blk].author = n) \/ PayloadOf(vs[i].blk) \subseteq have[n] THEN {} ELSE {<<"C08.VoteHasPayload", l>>}) \cup
   (IF \A i \in 1..Len(cs) : PayloadOf(cs[i].blk) \subseteq have[n] THEN {} ELSE {<<"C08.CommitHasPayload", l>>})
 
+\* C19 at system level: every certificate a node assembles consists of distinct authorities holding a quorum of the stake,
+\* each of which had sent this node a vote for that very block (a timeout for that very round, with that reported round)
+SeenAfter(n, e) ==
+  LET vs == LoggedKinds(e, "vote")  ts == LoggedKinds(e, "timeout")
+      v1 == IF e.k = "Vote" /\ e.ok THEN seen[n].votes \cup {<<B(e.in.blk), e.in.author>>} ELSE seen[n].votes
+      t1 == IF e.k = "Timeout" /\ e.ok THEN seen[n].tos \cup {<<e.in.round, e.in.author, e.in.hqr>>} ELSE seen[n].tos
+  IN [votes |-> v1 \cup {<<B(vs[i].blk), n>> : i \in 1..Len(vs)},
+      tos   |-> t1 \cup {<<ts[i].round, n, Rnd(B(ts[i].hq))>> : i \in 1..Len(ts)}]
+CertViol(n, e) ==
+  LET sa == SeenAfter(n, e)  qcs == LoggedKinds(e, "qc")  tcl == LoggedKinds(e, "tcmade") IN
+  (IF \A i \in 1..Len(qcs) : LET S == SetOfSeq(qcs[i].signers) IN
+          /\ Cardinality(S) = Len(qcs[i].signers) /\ S \subseteq Node /\ SumStake(S) >= Quorum
+          /\ qcs[i].round = Rnd(B(qcs[i].blk))
+          /\ \A a \in S : <<B(qcs[i].blk), a>> \in sa.votes
+   THEN {} ELSE {<<"C19.QCFromReceivedVotes", l>>}) \cup
+  (IF \A i \in 1..Len(tcl) : LET es == tcl[i].full.votes  A == {es[j][1] : j \in 1..Len(es)} IN
+          /\ Cardinality(A) = Len(es) /\ A \subseteq Node /\ SumStake(A) >= Quorum
+          /\ \A j \in 1..Len(es) : <<tcl[i].full.round, es[j][1], es[j][2]>> \in sa.tos
+   THEN {} ELSE {<<"C19.TCFromReceivedTimeouts", l>>})
+
 CoreStep(e) ==
   LET n == e.node  s0 == ns[n]
       pred == IF Rejected(e) THEN s0 ELSE Predict(e, s0)
@@ -160,7 +182,8 @@ CoreStep(e) ==
              ELSE ns' = [ns EXCEPT ![n] = Resync(pred, e)] /\ Diverge(e.k)
      /\ Observe(n, e)
      /\ nsteps' = nsteps + 1
-     /\ viol' = viol \cup AvailViol(n, e)
+     /\ viol' = viol \cup AvailViol(n, e) \cup CertViol(n, e)
+     /\ seen' = [seen EXCEPT ![n] = SeenAfter(n, e)]
      /\ UNCHANGED <<proposals, votes, timeouts, tcs, have>>
 
 TaskStep(e) ==
@@ -189,7 +212,7 @@ TaskStep(e) ==
             /\ UNCHANGED hist
        [] OTHER -> UNCHANGED <<ns, hist>> /\ NoDiverge
   /\ nsteps' = nsteps + 1
-  /\ UNCHANGED <<proposals, votes, timeouts, tcs, delivered, lst, viol, have>>
+  /\ UNCHANGED <<proposals, votes, timeouts, tcs, delivered, lst, viol, have, seen>>
 
 \* The properties are the formulas of HotStuff.tla.  They are monotone in the history, so it is enough
 \* to evaluate them when a run is complete (the next record is a reset or the end marker).
@@ -216,11 +239,12 @@ Reset ==
   /\ hist' = [n \in Honest |-> InitHist]
   /\ lst' = [n \in Honest |-> InitLst]
   /\ have' = [n \in Honest |-> {}]
+  /\ seen' = [n \in Honest |-> [votes |-> {}, tos |-> {}]]
   /\ UNCHANGED <<div, ndiv, nsteps>>
 
-Skip == UNCHANGED <<vars, div, ndiv, lst, nsteps, viol, have>>
-End == viol' = viol \cup BoundaryViol /\ UNCHANGED <<vars, div, ndiv, lst, nsteps, have>>
-Stored(e) == have' = [have EXCEPT ![e.node] = @ \cup {e.digest}] /\ UNCHANGED <<vars, div, ndiv, lst, nsteps, viol>>
+Skip == UNCHANGED <<vars, div, ndiv, lst, nsteps, viol, have, seen>>
+End == viol' = viol \cup BoundaryViol /\ UNCHANGED <<vars, div, ndiv, lst, nsteps, have, seen>>
+Stored(e) == have' = [have EXCEPT ![e.node] = @ \cup {e.digest}] /\ UNCHANGED <<vars, div, ndiv, lst, nsteps, viol, seen>>
 
 TNext ==
   /\ l <= Len(Rec)
